@@ -222,6 +222,7 @@ func c13GenConfig(f smodel.Format) smodel.GenConfig {
 	cfg := smodel.DefaultGenConfig(f)
 	cfg.Focus = []string{"array_ref", "map_ref", "map_scalar", "map_struct", "array_struct", "nullable_ref", "nullable_scalar", "enum_ref", "enum_anon", "any", "union_structs", "datetime", "array_nested", "anon_struct", "union_scalars", "ref_named_collection", "map_nested", "array_named_collection", "array_nullable_scalar", "map_nullable_scalar", "array_nullable_enum_ref", "map_nullable_enum_ref", "ref_named_scalar", "array_named_scalar", "map_named_scalar"}
 	cfg.NamedScalars = true
+	cfg.TypeLists = true
 	// `bytes` fields make the generated Equals uncompilable (listed under C02): nothing to judge there
 	cfg.NoBytes = true
 	return cfg
